@@ -41,7 +41,10 @@ def run_files(pid, tier):
                               payload(case, obs), kf_class)
             continue
         if not obs["accepted"]:
-            res.add_drift([f"valid tree rejected: {obs.get('msg')}"], cid)
+            # a prologue that is not Rust makes the build fail (every time): nothing to compare, and no disagreement either
+            unparsable = any(b["name"] == "rust" and "this is not rust" in b["pro"] for m in case["input"]["mods"] for b in m["backs"])
+            if not unparsable:
+                res.add_drift([f"valid tree rejected: {obs.get('msg')}"], cid)
             continue
         n_acc += 1
         problems = []
